@@ -531,6 +531,13 @@ fn main() {
                 let c: Value = serde_json::from_str(&line).expect("case json");
                 let rec = match c["k"].as_str() {
                     Some("enc") => run_enc(&fields_of(&c["f"])),
+                    // a frame the constructors accept but the layout cannot carry (a Datagram host of more than 255 octets):
+                    // same execution, judged by a different clause (every encoding must be refused)
+                    Some("encx") => {
+                        let mut v = run_enc(&fields_of(&c["f"]));
+                        v["k"] = json!("encx");
+                        v
+                    }
                     Some("dec") => {
                         if enc_only {
                             continue;
